@@ -36,6 +36,12 @@ def _write_if_changed(path, text):
             open(path, "w").write(text)
 
 
+# GOFLAGS=-mod=mod (vlib's default) lets the go command REWRITE /repo/<module>/go.mod when a harness imports a
+# package of a module that go.mod lists only as "// indirect" (it moves the line into the direct block).
+# -mod=readonly builds the same way and never writes: every C15 harness uses it.
+RO = {"GOFLAGS": "-mod=readonly"}
+
+
 class P(vlib.Prop):
     pid = "C15"
     coq_dirs = ["Common", "C15", "Generated"]
@@ -48,23 +54,25 @@ class P(vlib.Prop):
     shard = 250
     harnesses = [
         vlib.Harness("errors", "receiver/otlpreceiver", "./internal/errors/",
-                     {"zz_verif_c15_test.go": "C15/errors_test.go"}, "^TestVerifC15Errors$", "errors"),
-        vlib.Harness("grpcexp", "exporter/otlpexporter", ".",
-                     {"zz_verif_c15_test.go": "C15/grpcexp_test.go"}, "^TestVerifC15GrpcExp$", "otlpexporter"),
+                     {"zz_verif_c15_test.go": "C15/errors_test.go"}, "^TestVerifC15Errors$", "errors", extra_env=RO),
         vlib.Harness("httpexp", "exporter/otlphttpexporter", ".",
-                     {"zz_verif_c15_test.go": "C15/httpexp_test.go"}, "^TestVerifC15HttpExp$", "otlphttpexporter"),
+                     {"zz_verif_c15_test.go": "C15/httpexp_test.go"}, "^TestVerifC15HttpExp$", "otlphttpexporter", extra_env=RO),
         vlib.Harness("hop", "internal/e2e", ".",
-                     {"zz_verif_c15_test.go": "C15/hop_test.go"}, "^TestVerifC15Hop$", "e2e", timeout=900),
+                     {"zz_verif_c15_test.go": "C15/hop_test.go", "zz_verif_c15_grpcexp_test.go": "C15/grpcexp_e2e_test.go"},
+                     "^TestVerifC15(GrpcExp|Hop)$", "e2e", timeout=900, extra_env=RO),
     ]
     rule = ("errors: GetStatusFromError on its whole outcome domain (plain / permanent / status error of every code 1..18 / "
             "foreign GRPCStatus() error of every code incl. OK and nil, x RetryInfo delays x wrappers) and "
-            "GetHTTPStatusCodeFromStatus on codes 0..40.  grpcexp: processError and shouldRetry on every code 0..18 x "
-            "RetryInfo {absent, 0, delays}.  httpexp: the real export() against an httptest server answering every "
-            "status 200..599 x Retry-After {absent, seconds, HTTP-date, garbage, empty} x body shapes.  hop: real "
-            "otlpreceiver on loopback ports + real otlp / otlphttp(proto, json) exporters: every outcome class x "
-            "transport x auth, payloads of all four signals with 0..n items, every offered compression; raw HTTP "
-            "requests (malformed bodies, wrong media type / method / content-encoding, refused authentication) and raw "
-            "gRPC frames.  Non-trivial = every case (each runs the implementation); distinct = distinct case terms.")
+            "GetHTTPStatusCodeFromStatus on codes 0..40.  httpexp: isRetryableStatusCode on 0..999 (batches of 50) and the "
+            "real otlphttp exporter against an httptest server answering every status 200..599 x Retry-After {absent, "
+            "seconds, HTTP-date, garbage, empty} x body shapes.  hop (internal/e2e): scripted gRPC server + real otlp "
+            "exporter = processError/shouldRetry on every code 0..18 x RetryInfo {absent, nil delay, 15 delays}; real "
+            "otlpreceiver on loopback ports (with and without an authenticator extension) + real otlp / otlphttp(proto, "
+            "json) exporters with retry and queue disabled: every outcome class x transport, every offered compression x "
+            "signal, 0-item payloads, authenticator accepts/refuses, then random hops; raw HTTP requests over every "
+            "(auth, content-encoding class, method, content-type class, body class) combination + random; raw gRPC frames "
+            "(malformed bodies, refused credentials, every outcome).  Every case runs the implementation and is compared "
+            "with the Coq model (vm_compute); non-trivial = every case; distinct = distinct case terms.")
     trusted_base = [
         "Coq 8.16.1 kernel + vm_compute (coqc); no axioms (Print Assumptions: closed under the global context)",
         "translator T1 (tools/go2coq): GetHTTPStatusCodeFromStatus, shouldRetry, isRetryableStatusCode and the grpc codes constants are re-read from the current source on every run",
@@ -80,15 +88,29 @@ class P(vlib.Prop):
     ]
 
     def translate(self, ctx):
-        vlib.go2coq(ctx, "receiver/otlpreceiver", os.path.join(HERE, "t1_recv.json"), "C15Recv")
-        vlib.go2coq(ctx, "exporter/otlpexporter", os.path.join(HERE, "t1_grpcexp.json"), "C15GrpcExp")
-        vlib.go2coq(ctx, "exporter/otlphttpexporter", os.path.join(HERE, "t1_httpexp.json"), "C15HttpExp")
-        self.dump_statusutil(ctx)
+        # the four translations are independent: run them concurrently (every failure is reported)
+        import concurrent.futures
+        vlib.build_tool("go2coq")
+        jobs = [
+            lambda: vlib.go2coq(ctx, "receiver/otlpreceiver", os.path.join(HERE, "t1_recv.json"), "C15Recv"),
+            lambda: vlib.go2coq(ctx, "exporter/otlpexporter", os.path.join(HERE, "t1_grpcexp.json"), "C15GrpcExp"),
+            lambda: vlib.go2coq(ctx, "exporter/otlphttpexporter", os.path.join(HERE, "t1_httpexp.json"), "C15HttpExp"),
+            lambda: self.dump_statusutil(ctx),
+        ]
+        errs = []
+        with concurrent.futures.ThreadPoolExecutor(max_workers=4) as ex:
+            for f in [ex.submit(j) for j in jobs]:
+                try:
+                    f.result()
+                except vlib.Broken as b:
+                    errs.append(b)
+        if errs:
+            raise vlib.Broken("; ".join(b.what for b in errs), "\n".join(b.detail for b in errs))
 
     def dump_statusutil(self, ctx):
         """Run NewStatusFromMsgAndHTTPCode of the CURRENT tree on 0..999 and write its graph as a Coq function."""
         h = vlib.Harness("sudump", "", "./internal/statusutil/", {"zz_verif_c15_test.go": "C15/statusutil_dump_test.go"},
-                         "^TestVerifC15Dump$", "statusutil", timeout=600)
+                         "^TestVerifC15Dump$", "statusutil", timeout=600, extra_env=RO)
         cases, oracle, stats, err = vlib.run_harness(ctx, h)
         ctx.oracle += oracle
         if err:
